@@ -53,6 +53,7 @@ func SaveBeforeAssociations(create bool) func(db *gorm.DB) {
 					elems := reflect.MakeSlice(reflect.SliceOf(fieldType), 0, 10)
 					distinctElems := reflect.MakeSlice(reflect.SliceOf(fieldType), 0, 10)
 					identityMap := map[string]bool{}
+					savedPointers := map[uintptr]bool{} // a record shared by several elements is one record
 					for i := 0; i < rValLen; i++ {
 						obj := db.Statement.ReflectValue.Index(i)
 						if reflect.Indirect(obj).Kind() != reflect.Struct {
@@ -72,6 +73,13 @@ func SaveBeforeAssociations(create bool) func(db *gorm.DB) {
 									relPrimaryValues = append(relPrimaryValues, pfv)
 								}
 							}
+							if isPtr {
+								if savedPointers[rv.Pointer()] {
+									continue
+								}
+								savedPointers[rv.Pointer()] = true
+							}
+
 							cacheKey := utils.ToStringKey(relPrimaryValues...)
 							if len(relPrimaryValues) != len(rel.FieldSchema.PrimaryFields) || !identityMap[cacheKey] {
 								if cacheKey != "" { // has primary fields
